@@ -34,6 +34,7 @@ pub mod stereo_i16 {
     fn gen_ff(r: &mut Rng) -> FF { [super::gains32(r), super::gains32(r)] }
     fn gen_fs(r: &mut Rng) -> FS { [super::i16s(r), super::i16s(r)] }
     fn gen_const() -> F { [1, -1] }
+    fn gen_const_eq() -> F { [0, 0] }
     fn sg_feed() -> FS { feed_next() }
     fn fl_feed() -> FF { let f = feed_next(); [(f[0] % 5) as f32 * 0.5, (f[1] % 3) as f32 * 0.25] }
     include!("typed_body.rs");
@@ -52,6 +53,7 @@ pub mod mono_f64 {
     fn gen_ff(r: &mut Rng) -> FF { super::gains64(r) }
     fn gen_fs(r: &mut Rng) -> FS { super::f64s(r) }
     fn gen_const() -> F { 0.125 }
+    fn gen_const_eq() -> F { 0.0 }
     fn sg_feed() -> FS { feed_next() }
     fn fl_feed() -> FF { feed_next() }
     include!("typed_body.rs");
